@@ -442,6 +442,54 @@ func queryFace(face *font.Face, ld *ot.Loader, r *runner) {
 			sink += len(buf.Info)
 		}
 	})
+	// --- shaping under the font's own script / language systems: for a bounded, deterministic
+	// choice of the scripts of GSUB and GPOS and of their LangSys records (first, second, middle,
+	// last: non-default and non-first records included) one short string is shaped with the OpenType
+	// script and language tags forced through the private-use language subtags the shaper
+	// documents (x-hbsc-<hex>-hbot-<hex>), so that the plan is compiled from exactly that LangSys;
+	// the last shape of each table also carries user features from the font's FeatureList.
+	r.do("harfbuzz.Shape@langsys", func() {
+		hf := harfbuzz.NewFont(face)
+		pick := func(n int, want []int) []int {
+			var out []int
+			seen := map[int]bool{}
+			for _, i := range want {
+				if i >= 0 && i < n && !seen[i] {
+					seen[i] = true
+					out = append(out, i)
+				}
+			}
+			return out
+		}
+		for _, layout := range []*font.Layout{&ft.GSUB.Layout, &ft.GPOS.Layout} {
+			ns := len(layout.Scripts)
+			var feats []harfbuzz.Feature
+			for _, fi := range pick(len(layout.Features), []int{0, len(layout.Features) / 2, len(layout.Features) - 1}) {
+				feats = append(feats, harfbuzz.Feature{Tag: layout.Features[fi].Tag, Value: uint32(1 + fi%2), Start: harfbuzz.FeatureGlobalStart, End: harfbuzz.FeatureGlobalEnd})
+			}
+			feats = append(feats, harfbuzz.Feature{Tag: ot.MustNewTag("kern"), Value: 0, Start: 1, End: 3})
+			for _, si := range pick(ns, []int{0, 1, 2, ns / 2, ns - 2, ns - 1}) {
+				sc := layout.Scripts[si]
+				nl := len(sc.LangSysRecords)
+				langs := []ot.Tag{ot.MustNewTag("dflt")}
+				for _, li := range pick(nl, []int{0, 1, nl / 2, nl - 1}) {
+					langs = append(langs, sc.LangSysRecords[li].Tag)
+				}
+				for k, lt := range langs {
+					buf := harfbuzz.NewBuffer()
+					buf.AddRunes(first, 0, -1)
+					buf.GuessSegmentProperties()
+					buf.Props.Language = language.NewLanguage(fmt.Sprintf("x-hbsc-%08x-hbot-%08x", uint32(sc.Tag), uint32(lt)))
+					var fs []harfbuzz.Feature
+					if k == len(langs)-1 {
+						fs = feats
+					}
+					buf.Shape(hf, fs)
+					sink += len(buf.Info)
+				}
+			}
+		}
+	})
 	r.do("shaping.Shape", func() {
 		var sh shaping.HarfbuzzShaper
 		out := sh.Shape(shaping.Input{Text: first, RunStart: 0, RunEnd: len(first), Direction: di.DirectionLTR, Face: face,
